@@ -53,5 +53,18 @@ SetXStep(s, e) ==
   ELSE IF e.op = "trend" THEN IfSet(s.intr /\ s.seen = Keys(s.m), [s EXCEPT !.intr = FALSE])
   ELSE IF e.op = "dispose" THEN IfSet(\A p \in s.m : p[2] # e.a, s)
   ELSE {s}
-SetFinal(s, p) == TRUE
+\* ---- history predicate for extract_min / extract_max (C15): "no key present throughout the call is smaller (larger)" ----
+\* sound under-approximation of "present throughout": some successful insert of key j returned before the call was
+\* invoked, and no successful removal of key j is invoked anywhere before the call returns
+RetOf(p, i) == CHOOSE j \in (i + 1)..EndOf(p) : Raw[j].e = "ret" /\ Raw[j].t = Raw[i].t /\ \A k \in (i + 1)..(j - 1) : ~(Raw[k].e = "ret" /\ Raw[k].t = Raw[i].t)
+InvIdx(p) == { i \in (p + 1)..EndOf(p) : Raw[i].e = "inv" }
+IsIns(e) == (e.op \in {"ins", "insf", "emp"} /\ e.r = 1) \/ (e.op = "upd1" /\ e.r = 3)
+RemKey(e) == IF e.op \in {"era", "eraf", "ext", "unl", "eraseat"} /\ e.r = 1 THEN e.a
+             ELSE IF e.op \in {"extmin", "extmax"} /\ e.r = 1 THEN KeyOf(e.v) ELSE -1
+PresentThroughout(p, i, j) == /\ \E a \in InvIdx(p) : IsIns(Raw[a]) /\ Raw[a].a = j /\ RetOf(p, a) < i
+                              /\ ~(\E b \in InvIdx(p) : RemKey(Raw[b]) = j /\ b < RetOf(p, i))
+MinMaxOK(p) == \A i \in InvIdx(p) : (Raw[i].op \in {"extmin", "extmax"} /\ Raw[i].r = 1) =>
+                 LET k == KeyOf(Raw[i].v) IN
+                 \A j \in 0..99 : (IF Raw[i].op = "extmin" THEN j < k ELSE j > k) => ~PresentThroughout(p, i, j)
+SetFinal(s, p) == MinMaxOK(p)
 =============================================================================
